@@ -24,6 +24,12 @@ PI = ('self', 'player_indices')
 def run(chk, ctx) -> None:
     from .helpers import sign_helper
     sign_helper(chk, ctx, 'C13.helpers')
+    from . import c11
+    from .helpers import StreetColumn
+    c11.run(StreetColumn(chk, 'C13.variants', 'openings', 4,
+                         'who opens each street of the variant: position in button and draw games; in stud the lowest up-card (highest in razz) on '
+                         'the first street and the best exposed hand (lowest in razz) afterwards'), ctx)
+    chk.floor('C13.variants', 12)
     fi = ctx.sfi('_begin_betting')
     sev = SEval(ctx.prog)
     members = set(sev.enum_members('Opening'))
